@@ -16,23 +16,28 @@ Variable r : id.
 Definition Rstar (w w' : world) : Prop :=
   (forall x, Reach w r x -> Reach w' r x \/ kids_of w' x = []) /\
   (forall x c, In c (kids_of w' x) -> In c (kids_of w x)) /\
-  (forall x, allocated w x -> allocated w' x).
+  (forall x, allocated w x -> allocated w' x) /\
+  (forall S, OrphE w S -> OrphE w' S).
 
 Lemma Rstar_refl w : Rstar w w.
-Proof. split; [auto|split; auto]. Qed.
+Proof. split; [auto|split; [auto|split; auto]]. Qed.
 Lemma Rstar_trans a b c : Rstar a b -> Rstar b c -> Rstar a c.
 Proof.
-  intros (A1 & A2 & A3) (B1 & B2 & B3). split; [|split; auto].
-  intros x Hx. destruct (A1 _ Hx) as [Hb|Hb]; [apply B1; exact Hb|].
-  right. destruct (kids_of c x) as [|k l] eqn:E; auto. exfalso.
-  assert (In k (kids_of b x)) by (apply B2; rewrite E; left; reflexivity). rewrite Hb in H. destruct H.
+  intros (A1 & A2 & A3 & A4) (B1 & B2 & B3 & B4). split; [|split; [|split]].
+  - intros x Hx. destruct (A1 _ Hx) as [Hb|Hb]; [apply B1; exact Hb|].
+    right. destruct (kids_of c x) as [|k l] eqn:E; auto. exfalso.
+    assert (In k (kids_of b x)) by (apply B2; rewrite E; left; reflexivity). rewrite Hb in H. destruct H.
+  - intros x k Hk. apply A2. apply B2. exact Hk.
+  - intros x Hx. apply B3. apply A3. exact Hx.
+  - intros S0 HS. apply B4. apply A4. exact HS.
 Qed.
 Lemma Rstar_same_tree w w' : same_tree w w' -> Rstar w w'.
 Proof.
-  intros S. pose proof S as (_ & _ & Ss). split; [|split].
+  intros S. pose proof S as (_ & _ & Ss). split; [|split; [|split]].
   - intros x Hx. left. apply (st_reach _ _ _ _ S). exact Hx.
   - intros x c. rewrite !kids_of_skel, Ss. auto.
   - intros x. apply (st_alloc _ _ _ S).
+  - intros S0. apply OrphE_same_tree. exact S.
 Qed.
 
 Definition RSp {A} (m : W A) : Prop := forall w r0 w', Core w -> m w = Val (r0, w') -> Rstar w w'.
@@ -89,7 +94,10 @@ Proof.
   { intros x. rewrite !allocated_skel. destruct (in_dec N.eq_dec x (subl f w sub)) as [Hin|Hin].
     - rewrite (HL _ Hin). congruence.
     - destruct (N.eq_dec x self) as [->|Hxs]; [rewrite Hi'; congruence|rewrite Ho by auto; auto]. }
-  split; [|split; auto].
+  split; [|split; [auto|split; [auto|]]].
+  2:{ eapply (orphe_clear w w' self sub (subl f w sub) (n_parent ns) (kids ns)); eauto.
+      - intros x Hx. split; [eapply subl_alloc; eauto|auto].
+      - apply subl_self. }
   intros x Hx. destruct (in_dec N.eq_dec x (subl f w sub)) as [Hin|Hin].
   { right. rewrite kids_of_skel, (HL _ Hin). reflexivity. }
   left. induction Hx as [Ha|p x Hrp IH Hlx].
